@@ -44,3 +44,102 @@ W('arctan', S.ATAN, 'arctan', which=0); W('sinh', S.SINH, 'sinhcosh', which=0); 
 W('reciprocal', S.RECIP, 'recip', lambda x: [x[0] != 0], obj='x', props=('C01', 'C02', 'C14'))
 W('square', lambda x, j: S.CONV(x, x, j), None, obj='x', props=('C01', 'C02', 'C14')); W('negative', lambda x, j: -x[j], None, obj='x')
 W('absolute', lambda x, j: sgn(x[0]) * x[j], None, lambda x: [x[0] != 0], obj='x'); W('expm1', Expm1.EXPM1, None)
+
+
+# ------------------------------------------------------------------------------------------------ operators
+toR = S.toR
+class OpUU(Contract):
+    """self (op) rhs with both operands Taylor polynomials.  cfg `same`: both operands are the same object (x op x)."""
+    file = 'algopy/utpm/utpm.py'; objs = ('self', 'rhs'); arrays = ('self.data', 'rhs.data'); modifies = (); returns = 'any'
+    cfgs = {'distinct': {}, 'same': {'alias': {'rhs.data': 'self.data'}}}
+    property_ids = ('C02', 'C14')
+    skolem_instances = False
+    def requires(self, c): return []
+    def value(self, c, j): raise NotImplementedError
+    def ensures(self, c):
+        r = c.retdata(); fresh = c.ret.attrs['data'].base not in (c._names['self.data'], c._names['rhs.data'])
+        return [('result.data[d] = ring operation of R[t]/(t^D)', c.forall(0, c.D, lambda j: r[j] == self.value(c, j))), ('result is a new object', z3.BoolVal(bool(fresh)))]
+def UU(name, val, req=lambda c: []):
+    cls = type('UU_' + name, (OpUU,), {'qual': 'UTPM.' + name, 'value': lambda self, c, j: val(c.pre['self.data'], c.pre['rhs.data'], j), 'requires': lambda self, c: req(c)})
+    inst = cls(); REG['UTPM.%s[UTPM]' % name] = inst; return cls
+UU('__add__', lambda x, y, j: x[j] + y[j]); UU('__sub__', lambda x, y, j: x[j] - y[j])
+UU('__mul__', lambda x, y, j: S.CONV(x, y, j)); UU('__truediv__', lambda x, y, j: S.QUOT(x, y, j), lambda c: [c.pre['rhs.data'][0] != 0])
+
+
+class OpUC(Contract):
+    """self (op) constant: the constant acts as a polynomial of degree zero.  cfgs: python/numpy float, int, plain ndarray."""
+    file = 'algopy/utpm/utpm.py'; objs = ('self',); arrays = ('self.data',); scalars = {'rhs': 'real'}; modifies = (); returns = 'any'
+    cfgs = {'float': {'rhs': 'real'}, 'int': {'rhs': 'int'}, 'ndarray': {'rhs': 'ndarray'}}
+    property_ids = ('C02', 'C14')
+    def cval(self, c):
+        v = scalar_of(c, 'rhs'); return toR(v.t)
+    def ensures(self, c):
+        r = c.retdata(); x = c.pre['self.data']; k = self.cval(c); fresh = c.ret.attrs['data'].base != c._names['self.data']
+        return [('result.data[d] = x (op) constant-as-degree-0-polynomial', c.forall(0, c.D, lambda j: r[j] == self.value(x, k, j))), ('result is a new object', z3.BoolVal(bool(fresh)))]
+def UC(name, val, req=lambda k: []):
+    cls = type('UC_' + name, (OpUC,), {'qual': 'UTPM.' + name, 'value': staticmethod(val), 'requires': lambda self, c: req(self.cval(c))})
+    inst = cls(); REG['UTPM.%s[const]' % name] = inst; return cls
+UC('__add__', lambda x, k, j: z3.If(j == 0, x[j] + k, x[j])); UC('__sub__', lambda x, k, j: z3.If(j == 0, x[j] - k, x[j]))
+UC('__mul__', lambda x, k, j: x[j] * k); UC('__truediv__', lambda x, k, j: x[j] / k, lambda k: [k != 0])
+
+
+class IOpUU(Contract):
+    """self (op)= rhs: same coefficients as the binary operator, written into self.data; returns self.
+    cfg `same`: x op= x."""
+    file = 'algopy/utpm/utpm.py'; objs = ('self', 'rhs'); arrays = ('self.data', 'rhs.data'); modifies = ('self.data',); returns = 'any'
+    cfgs = {'distinct': {}, 'same': {'alias': {'rhs.data': 'self.data'}}}
+    property_ids = ('C02', 'C14')
+    def ensures(self, c):
+        x = c.pre['self.data']; y = c.pre['rhs.data']; now = c.cur('self.data')
+        same = isinstance(c.ret, type(c.st.env['self'])) and c.ret is c.st.env['self']
+        return [('self.data[d] = same right-hand side as the binary operator', c.forall(0, c.D, lambda j: now[j] == self.value(x, y, j))), ('returns self', z3.BoolVal(bool(same)))]
+    def _frame_params(self, cfg): return [] if cfg == 'same' else ['rhs.data']
+def IUU(name, val, req=lambda c: [], invs=None, defs=None):
+    d = {'qual': 'UTPM.' + name, 'value': staticmethod(val), 'requires': lambda self, c: req(c)}
+    if invs: d['invariants'] = lambda self: invs(self)
+    if defs: d['spec_instances'] = lambda self, c, n: defs(c, n)
+    cls = type('IUU_' + name, (IOpUU,), d); REG['UTPM.%s[UTPM]' % name] = cls(); return cls
+IUU('__iadd__', lambda x, y, j: x[j] + y[j]); IUU('__isub__', lambda x, y, j: x[j] - y[j])
+def _imul_invs(self):
+    def inv_d(c, d):        # descending d: orders > d final, orders <= d still entry values
+        x, y = c.pre['self.data'], c.pre['rhs.data']; now = c.cur('self.data')
+        return [c.forall(d + 1, c.D, lambda j: now[j] == S.CONV(x, y, j)), c.forall(0, d + 1, lambda j: now[j] == x[j])] + _rhs_ok(c)
+    def inv_c(c, cc):
+        x, y = c.pre['self.data'], c.pre['rhs.data']; now = c.cur('self.data'); d = c.scalar('d')
+        return [c.forall(d + 1, c.D, lambda j: now[j] == S.CONV(x, y, j)), c.forall(0, d, lambda j: now[j] == x[j]),
+                now[d] == x[d] * y[0] + c.Sum(z3.IntVal(0), cc - 1, lambda k: x[k] * y[d - k])] + _rhs_ok(c)
+    return {0: inv_d, 2: inv_c}
+def _rhs_ok(c):
+    # the array the loop reads as right operand (rhs_data: rhs.data itself or its private copy) still holds the entry values of rhs.data
+    v = c.st.env.get('rhs_data'); y = c.pre['rhs.data']
+    from vc.engine import View
+    if not isinstance(v, View): return []
+    arr = c.st.heap[v.base][0]
+    return [c.forall(0, c.D, lambda j: arr[j] == y[j])]
+IUU('__imul__', lambda x, y, j: S.CONV(x, y, j), invs=_imul_invs, defs=lambda c, n: S.conv_def(c, c.pre['self.data'], c.pre['rhs.data'], n))
+def _idiv_invs(self):
+    def inv0(c, d):
+        x, y = c.pre['self.data'], c.pre['rhs.data']; r = c.st.env['retval'].attrs['data']; arr = c.st.heap[r.base][0]
+        return [c.forall(0, d, lambda j: arr[j] == S.QUOT(x, y, j))] + c.unchanged('self.data', 'rhs.data')
+    return {0: inv0}
+IUU('__itruediv__', lambda x, y, j: S.QUOT(x, y, j), req=lambda c: [c.pre['rhs.data'][0] != 0], invs=_idiv_invs, defs=lambda c, n: S.quot_def(c, c.pre['self.data'], c.pre['rhs.data'], n))
+
+
+class Pow(Contract):
+    file = 'algopy/utpm/utpm.py'; qual = 'UTPM.__pow__'; objs = ('self',); arrays = ('self.data',); scalars = {'r': 'real'}; modifies = (); returns = 'any'
+    cfgs = {'real': {'r': 'real'}, 'int0': {'r': 0}, 'int1': {'r': 1}, 'int2': {'r': 2}, 'int_ge3': {'r': 'int'}, 'int_neg': {'r': 'int'}}
+    property_ids = ('C01', 'C02', 'C14')
+    def cfg_assumptions(self, c, cfg):
+        r = scalar_of(c, 'r')
+        return [r.t >= 3] if cfg == 'int_ge3' else ([r.t < 0] if cfg == 'int_neg' else [])
+    def requires(self, c):
+        from vc.engine import IntV
+        r = scalar_of(c, 'r')
+        return [] if (isinstance(r, IntV) and c.ex.entails(r.t >= 0) is True) else [c.pre['self.data'][0] != 0]
+    def ensures(self, c):
+        from vc.engine import IntV
+        x = c.pre['self.data']; res = c.retdata(); r = scalar_of(c, 'r')
+        nat = isinstance(r, IntV) and c.ex.entails(r.t >= 0) is True
+        val = (lambda j: S.POWN(x, r.t, j)) if nat else (lambda j: S.POWR(x, toR(r.t), j))
+        return [('result.data = x ** r', c.forall(0, c.D, lambda j: res[j] == val(j))), ('result is a new object', z3.BoolVal(c.ret.attrs['data'].base != c._names['self.data']))]
+REG['UTPM.__pow__'] = Pow()
